@@ -335,6 +335,26 @@ int main(int argc, char** argv)
       if(!ok2 || !j2 || code2 != 5 || out2 != want2 || err2 != (se2 ? "ABC" : ""))
         vf::violation("C20:process:reuse", cs, "second child: " + vf::fmt("read ok=%d join=%d code=%u", (int)ok2, (int)j2, (unsigned)code2) + " stdout '" + vf::show(out2) + "' (expected '" + vf::show(want2) + "') stderr '" + vf::show(err2) + "'");
     }
+    // (f) join without draining: the child writes (a few bytes, they fit into the pipe) only after the parent is already inside join();
+    //     the statement gives join() the child's exit code whatever the parent has read
+    for(int streams = 0; streams < 3; ++streams) for(int how = 0; how < 2; ++how)
+    {
+      if(!sh.take()) continue;
+      static const uint SETS[] = {Process::stdoutStream, Process::stdoutStream | Process::stderrStream, Process::stdinStream | Process::stdoutStream | Process::stderrStream};
+      uint st = SETS[streams];
+      std::string cs = vf::fmt("late writer: streams=%u, child writes 150 ms after its start, parent %s", st, how ? "joins through join() (no exit code)" : "joins at once");
+      vf::crumb("launch-late", sh.token(), cs);
+      vf::watchdog_arm(30000);
+      vf::hit("late_writer_runs"); vf::hit("distinct_nontrivial");
+      bool se = (st & Process::stderrStream) != 0;
+      const char* av[] = {"argv0", "io", "3", se ? "3" : "0", "7", "0", "150"};
+      Process p;
+      if(!p.open(S(child), 7, (char* const*)av, st)) { vf::violation("C20:process:open", cs, "open failed"); continue; }
+      uint32 code = 99;
+      bool j = how ? p.join() : p.join(code);
+      if(!j) { vf::violation("C20:process:exit-code", cs, "join failed"); continue; }
+      if(!how && code != 7) vf::violation("C20:process:exit-code", cs, vf::fmt("join reported exit code %u, child exited with 7 (a child killed by SIGPIPE reports 0)", (unsigned)code));
+    }
     // (c) exit codes
     for(int code = 0; code < 256; ++code)
     {
